@@ -62,6 +62,14 @@ func (k Keeper) Withdraw(ctx sdk.Context, order ordertypes.Order) (sdk.Coin, err
 		} else if shard.Status == ordertypes.ShardWaiting {
 			// refundDec += price * shardSize * shardDuration
 			refundDec = refundDec.Add(shardIncomePerBlock.MulInt64(int64(order.Duration)))
+		} else if shard.Status == ordertypes.ShardCompleted && shard.OrderId < order.Id {
+			// order is a renewal whose period has not started for this shard yet:
+			// refundDec += price * shardSize * renewDuration
+			for _, info := range shard.RenewInfos {
+				if info.OrderId == order.Id {
+					refundDec = refundDec.Add(shardIncomePerBlock.MulInt64(int64(info.Duration)))
+				}
+			}
 		}
 	}
 
